@@ -60,3 +60,25 @@ def digits (cs : List Char) : Prop := cs ≠ [] ∧ ∀ c ∈ cs, c.isDigit = tr
 def WF (v : Ver) : Prop := v.comps ≠ [] ∧ ∀ c ∈ v.comps, digits c
 
 end Pkgcore.C01.Spec
+
+/-! The order-embedding key of the PMS order (used by the preorder proofs of C01 and, as the canonical
+value of a version, by the specifications of C02/C07).  Definitions only — no proofs — so that drivers can
+import it without depending on any table-dependent proof. -/
+namespace Pkgcore.C01
+open Pkgcore.C01.Spec
+
+abbrev CompKey := Nat × List Char × Nat
+/-- order embedding of one later component: leading-zero components sort strictly below the others -/
+def compKey (a : List Char) : CompKey :=
+  if a.head? = some '0' then (0, rstrip0 a, 0) else (1, [], natOfDigits a)
+
+abbrev Key := Nat × List CompKey × Nat × List (Int × Nat) × Nat
+def letterKey : Option Char → Nat
+  | none => 0
+  | some c => c.toNat + 1
+def sufKey (x : Suf × List Char) : Int × Nat := (rank x.1, natOfDigits x.2)
+def key (v : Ver) (r : Rev) : Key :=
+  (natOfDigits (v.comps.headD []), v.comps.tail.map compKey, letterKey v.letter,
+   v.sufs.map sufKey ++ [(0, 0)], revNat r)
+
+end Pkgcore.C01
